@@ -8,8 +8,11 @@
    * SetMode(mode, source) re-addresses the devices (source + i, wrapped as at initialisation): source is a byte and the device table
      has at most 256 entries, so that the stored addresses are bytes (time_ok requires d_src to be a byte: the pending-information
      delays 187 + 8 s / 187 + 10 s are computed from it);
-   * nothing is asked of the other calls: device indices, destinations, NAME fields, instances, PGN lists, modes are arbitrary integers
-     (out-of-range device indices are refused by the guards of the entry points, identically at both origins).
+   * nothing is asked of the other calls: device indices, destinations, NAME fields, instances, PGN lists (node-wide and per device:
+     ExtendTransmitMessages / ExtendReceiveMessages), modes, the flag of SetHandleOnlyKnownMessages and the strings and numbers of
+     SetProductInformation are arbitrary (out-of-range device indices are refused by the guards of the entry points, identically at
+     both origins).  The last four calls do not involve time at all: they replace d_tx / x_rx / r_cfg, which the shift leaves as they
+     are and time_ok does not mention.
 
    No call is excluded: every call of [api] is shift invariant. *)
 From Coq Require Import ZArith List Bool.
